@@ -14,12 +14,10 @@ package c20
 import (
 	"bytes"
 	"fmt"
-	"regexp"
 	"sort"
 	"strings"
 	"testing"
 
-	hcl "Havoc/pkg/profile/yaotl"
 
 	"Havoc/pkg/profile/yaotl/hclsyntax"
 	"Havoc/pkg/profile/yaotl/hclwrite"
@@ -67,25 +65,6 @@ func genSource(t *rapid.T) (string, string, []string) {
 func genA(t *rapid.T) CaseA {
 	src, origin, feat := genSource(t)
 	return CaseA{Origin: origin, Src: src, Feat: feat}
-}
-
-var uniEsc = regexp.MustCompile(`\\u[0-9a-fA-F]{4}|\\U[0-9a-fA-F]{8}`)
-
-// rejectedOnlyForUnicodeEscape: the parser rejects src, every error is about an
-// escape sequence, and the same text with each \uNNNN / \UNNNNNNNN escape replaced
-// by a plain letter is accepted.  The \uNNNN and \UNNNNNNNN forms are the ones the
-// parser's own diagnostics describe as valid and the ones hclwrite generates.
-func rejectedOnlyForUnicodeEscape(src []byte, diags hcl.Diagnostics) bool {
-	if !uniEsc.Match(src) {
-		return false
-	}
-	for _, d := range diags {
-		if d.Severity == hcl.DiagError && d.Summary != "Invalid escape sequence" {
-			return false
-		}
-	}
-	_, d2 := hclsyntax.ParseConfig(uniEsc.ReplaceAll(src, []byte("X")), "", startPos)
-	return !d2.HasErrors()
 }
 
 func checkA(c CaseA) *core.Violation {
@@ -287,11 +266,6 @@ func classifyA(c CaseA) core.Class {
 	var cl core.Class
 	valid, heredoc, comment, template := srcClass(c.Src)
 	cl.Labels = append(cl.Labels, "origin:"+c.Origin)
-	if !valid && uniEsc.MatchString(c.Src) {
-		cl.Labels = append(cl.Labels, "source:has-unicode-escape")
-		cl.Fingerprint = "unicode-escape"
-		return cl
-	}
 	if !valid {
 		cl.Labels = append(cl.Labels, "source:rejected-by-parser(skipped)")
 		cl.Fingerprint = "invalid"
